@@ -84,6 +84,10 @@ type C08Case struct {
 	FilterForm int   `json:"filterForm"` // 0: Or(Type...) ; 1: And(Or(S+A), Or(S+B)) with disjoint A, B
 	ExtraA     []int `json:"extraA,omitempty"`
 	ExtraB     []int `json:"extraB,omitempty"`
+	// FiltersAsDefaults: the filters are given to NewFunc as defaults of the
+	// original function instead of to Redefine ("options given at
+	// construction apply otherwise", C16).
+	FiltersAsDefaults bool `json:"filtersAsDefaults,omitempty"`
 }
 
 func typeFilter(ts []int) argmapper.FilterFunc {
@@ -165,16 +169,26 @@ func evalC08(c *engine.Case) engine.Verdict {
 	convRan := false
 	for rep := 0; rep < reps && v.Fail == ""; rep++ {
 		w := engine.NewWorld()
+		var filters []argmapper.Arg
+		if x.HasIn {
+			filters = append(filters, argmapper.FilterInput(x.filter(x.InFilter)))
+		}
+		if x.HasOut {
+			filters = append(filters, argmapper.FilterOutput(x.filter(x.OutFilter)))
+		}
+		if x.FiltersAsDefaults {
+			w.TargetDefaults = filters
+			if rep == 0 && len(filters) > 0 {
+				v.Class("filters-given-as-defaults")
+			}
+		}
 		target, args, err := w.Setup(sc)
 		if err != nil {
 			v.Failf("setup: %v", err)
 			return v
 		}
-		if x.HasIn {
-			args = append(args, argmapper.FilterInput(x.filter(x.InFilter)))
-		}
-		if x.HasOut {
-			args = append(args, argmapper.FilterOutput(x.filter(x.OutFilter)))
+		if !x.FiltersAsDefaults {
+			args = append(args, filters...)
 		}
 		n0 := w.NumEvents()
 		w.DeficientFirst = true
@@ -323,6 +337,20 @@ func evalC08(c *engine.Case) engine.Verdict {
 		if tev.Err != nil {
 			if o.Err != tev.Err {
 				v.Failf("the original body returned error %v but the redefined function returned %v", tev.Err, o.Err)
+			}
+			// the original function's own results: the values it returned
+			// next to its error as well (a built function delivers only its
+			// error: the callback's error return aborts it)
+			if !sc.Target.Built && len(o.Outs) == len(tev.Outs) {
+				for i := range o.Outs {
+					if o.Outs[i].Tok != tev.Outs[i] {
+						v.Failf("the original body returned #%d as result %d next to its error; the redefined function returned #%d (valid=%v)", tev.Outs[i], i, o.Outs[i].Tok, o.Outs[i].Valid)
+						break
+					}
+				}
+				if rep == 0 && len(o.Outs) > 0 {
+					v.Class("target-returns-values-with-error")
+				}
 			}
 			continue
 		}
@@ -474,6 +502,7 @@ func genC08(g engine.G) *engine.Case {
 		}
 		x.OutFilter = uniqInts(x.OutFilter)
 	}
+	x.FiltersAsDefaults = g.Pct(20)
 	if g.Pct(30) {
 		x.FilterForm = 1
 		for t := 0; t < engine.NumConcrete; t++ {
